@@ -462,6 +462,25 @@ def run_harness(h: Harness, seed=0, tier="quick", shard=None):
                         rec["via"] = ac.label
                         rec["t"] = round(rec["t"] + r2["t"], 4)
                         break
+                if rec["status"] == "unknown" and kindc != "raw":
+                    # the solver neither proved nor refuted the claim within its cap: look for a concrete input on which
+                    # the real code violates it (a confirmed counterexample is a violation however it was found; the
+                    # absence of one leaves the obligation inconclusive)
+                    names_ = sorted(set(val_vars([v for row in in_vals for v in row])) | set(val_vars(_collect_vals(aux))))
+                    for _try in range(12):
+                        fake = {n: Fraction(rng.choice([-1, 1]) * rng.randint(20, 190), 100) for n in names_ if "!" not in n}
+                        for n in list(fake):
+                            if n.endswith("_t") or n.endswith("_u"):
+                                fake[n] = abs(fake[n])
+                        try:
+                            rp = replay(h, f_real, in_vals, aux, None, label, fake, ctx)
+                        except Exception:
+                            continue
+                        if rp.get("confirmed"):
+                            rp["note"] = "solver answered unknown; violating input found by sampling and confirmed on the real code"
+                            rec["status"] = "refuted"
+                            rec["replay"] = rp
+                            break
             records.append(rec)
             if rec["status"] == "refuted" and os.environ.get("VERIF_FAILFAST"):
                 failfast = True
